@@ -279,7 +279,7 @@ EXTRA = {
     "C04": GEN_RES + " Theorems C04_source_results_wrapper_refines_memory_on / _memory_off.",
     "C06": GEN_MEM + " Theorems C06_source_memory_wrapper_refines, C06_source_memory_hit, C06_source_memory_miss.",
     "C11": GEN_MEM + " Theorem C11_source_memory_wrapper_refines.",
-    "C05": GEN_STOP + " Theorems C05_source_update_lvl0/lvl1_refines, C05_source_verbosity_paths_agree, C05_source_new2best_spec.",
+    "C05": GEN_STOP + " Theorems C05_source_update_lvl0/lvl1_refines, C05_source_verbosity_paths_agree, C05_source_new2best_spec. ALSO, harness/translate_finish.py re-translates Search.finish_search into generated/FinishGen.v; proofs/FinishTie.v proves it equal to Driver.finish_search (theorems C05_source_finish_search_refines, C05_source_finish_decodes_best).",
     "C16": (" ALSO, harness/translate_grid.py re-translates DiagonalGridSearchOptimizer.get_direction / grid_move / iterate and "
             "OrthogonalGridSearchOptimizer.grid_move / iterate (for / while / while-True loops, fuel explicit) into generated/GridGen.v "
             "on every run; proofs/GridTie.v proves they refine theories/Grid.v, and C16_source_diag_covers / C16_source_orth_covers "
@@ -339,7 +339,7 @@ def main():
         engines=[
             dict(name="coq-model", path="/verif/coq", serves_properties=sorted(CLAIMS), kind_free_text="hand-written Gallina model (theories/), lemmas (proofs/), property theorems (props/Prop_Cxx.v, each with Print Assumptions)"),
             dict(name="source-translators", path="/verif/harness/pytrans.py", serves_properties=["C01", "C02", "C03", "C04", "C05", "C06", "C08", "C10", "C11", "C12", "C13", "C14", "C15", "C16", "C17", "C18", "C19"],
-                 kind_free_text="translate_facades.py (C18 data), translate_core.py (tracker layer: C15, C19), translate_driver.py (_stop_run.py, _progress_bar.py: C05, C12-C14), translate_grid.py (grid search: C16, C08), translate_search.py (search.py driver: C03, C12-C14, C18), translate_memory.py (_memory.py wrapper: C06, C11), translate_results.py (_results_manager.py wrapper: C04), translate_coreopt.py (core_optimizer.py moves: C01, C02, C08), translate_init.py (init_positions.py: C10, C02), translate_smbo.py (smbo.py bookkeeping: C17): Gallina regenerated from /repo's AST on every run, refinement to the hand model proved in proofs/*Tie.v"),
+                 kind_free_text="translate_facades.py (C18 data), translate_core.py (tracker layer: C15, C19), translate_driver.py (_stop_run.py, _progress_bar.py: C05, C12-C14), translate_grid.py (grid search: C16, C08), translate_search.py (search.py driver: C03, C12-C14, C18), translate_memory.py (_memory.py wrapper: C06, C11), translate_results.py (_results_manager.py wrapper: C04), translate_coreopt.py (core_optimizer.py moves: C01, C02, C08), translate_init.py (init_positions.py: C10, C02), translate_smbo.py (smbo.py bookkeeping: C17), translate_finish.py (Search.finish_search: C05): Gallina regenerated from /repo's AST on every run, refinement to the hand model proved in proofs/*Tie.v"),
             dict(name="correspondence", path="/verif/harness", serves_properties=sorted(CLAIMS), kind_free_text="K/D/S units: implementation and model run on the same inputs; the model is evaluated inside Coq (generated cases files, vm_compute)"),
             dict(name="monitors", path="/verif/harness/props", serves_properties=sorted(CLAIMS), kind_free_text="direct Python encodings of each property used to find concrete failing inputs (replays); never the proof"),
         ],
